@@ -1,6 +1,7 @@
 import Proofs.C14.Descsum
 import Proofs.C14.Scan
 import Proofs.C14.Roundtrip
+import Proofs.C14.Multipath
 /-!
 # C14 — descriptors and wallets derive what they describe and recognise only their own
 
@@ -349,5 +350,38 @@ example :
   decide +kernel
 
 end T2
+
+
+/-! ## T4 — multipath expansion chooses the j-th alternative everywhere
+
+`expandText` is the textual expansion inside `multipath_descriptors` (the regex split and the
+per-index join); `multipath` wraps it between `strip_checksum` and `add_checksum`.  A template is
+the text before the first `<…>` step and, per step, its alternatives and the text after it. -/
+section T4
+open Btc.Desc
+
+/-- T4: for every well-formed template whose steps all have the same number `n ≥ 2` of alternatives,
+    the expansion of its multipath text is exactly the `n` single-path texts obtained by choosing the
+    `j`-th alternative at EVERY step, for j = 0 … n-1 in that order. -/
+theorem multipath_expansion (t : Tmpl) (h : TmplOk t) (n : Nat) (hn : 2 ≤ n) (hne : t.2 ≠ [])
+    (hl : ∀ s ∈ t.2, s.1.length = n) :
+    expandText (printT t) = some ((List.range n).map (chooseAlt t.1 t.2)) :=
+  expandText_printT t h n hn hne hl
+
+/-- a descriptor with no multipath step is one descriptor, unchanged. -/
+theorem single_path_unchanged (body : List Char) (h : ∀ c ∈ body, c ≠ '<') : expandText body = some [body] :=
+  expandText_single body h
+
+example :
+    let t : Tmpl := ("wsh(multi(1,xA/".toList, [([['0'], ['1']], "/*,xB/7/".toList), ([['2'], ['3']], "/*))".toList)])
+    printT t = "wsh(multi(1,xA/<0;1>/*,xB/7/<2;3>/*))".toList ∧
+      expandText (printT t) = some ["wsh(multi(1,xA/0/*,xB/7/2/*))".toList, "wsh(multi(1,xA/1/*,xB/7/3/*))".toList] := by
+  decide +kernel
+
+/-- steps of different lengths, or a single alternative, are refused. -/
+example : expandText "pk(x/<0;1>/<0;1;2>)".toList = none ∧ expandText "pk(x/<0>)".toList = none := by
+  decide +kernel
+
+end T4
 
 end Props.C14
